@@ -474,6 +474,15 @@ func run(r *hx.Run) error {
 			}
 		}
 	}
+	// F112b (known finding): a ';' in the hyperlink parameters ends the parameter field early
+	{
+		c := ch("a")
+		c.Style = vaxis.Style{Hyperlink: "http://d", HyperlinkParams: "a;b"}
+		if err := scenario(r, rng, "lp-semicolon", 2, 1, false, false, false, false, [][]write{{{0, 0, c}}}, []bool{false}); err != nil {
+			return err
+		}
+		r.Count("scenario-lp-semicolon")
+	}
 	// Random histories
 	hist, maxW, maxH, frames := 300, 8, 4, 6
 	if r.Thorough {
